@@ -14,6 +14,12 @@ CLAIMED = {
         "Trusted: the reference parser vlib/refsvg/pathgrammar.py (self-tested in setup), Python float() for token values.",
         "DESIGN.md 2/C10",
     ),
+    "C12": (
+        "Hypothesis-generated arcs (log-uniform magnitudes, boundary classes built on purpose) checked geometrically against an independent centre parameterisation (SVG implementation notes F.6.5/F.6.6)",
+        "Exploration. Tens of thousands of generated arcs per run (all flag combinations, radii 1e-3..1e4, rotations beyond a full turn, exactly/barely fitting, too small, zero, negative radii, coincident endpoints) through arc_to_cubic and SVGPath.arcs_to_cubics; every emitted cubic is sampled against the true ellipse (0.03% bound), sweep direction/extent and exact end point are checked. Sampling, not proof.",
+        "Trusted: vlib/refsvg/arcref.py (self-tested on hand-computed arcs). End points closer than 1e-6 of the coordinate magnitude are fenced (ill-conditioned for any implementation).",
+        "DESIGN.md 2/C12",
+    ),
 }
 
 NOT_YET = "check not built yet in this round (work in progress; see DESIGN.md section 5 for the order of work)"
